@@ -389,7 +389,9 @@ func runC07(o *hx.Out, r *hx.Rand, thorough bool) {
 	for i := 0; i < nStreams; i++ {
 		var body []byte
 		n := r.Intn(5)
-		small := i%3 != 2 // keep most streams small so that every cut offset is run
+		// keep most streams small so that every cut offset is run; the number of large ones is bounded
+		// (their case terms are megabytes of bytes for the Coq side to parse)
+		small := i%3 != 2 || i >= 24
 		for j := 0; j < n; j++ {
 			m := randMsg()
 			if small && len(m) > 40 {
